@@ -54,7 +54,7 @@ class P(Prop):
                     f = self.val(rnd, "F", True)
                     key = rnd.choice([k, k.replace("_", "-"), k.replace("-", "_")])
                     q = rnd.choice(['"%s"', "'%s'", "%s", '["%s"]', "[ '%s' ]"]) % f
-                    line = rnd.choice(["%s = %s", "%s=%s", "%s  =  %s  ", "%s\t=\t%s", "%s = %s # comment", "%s =\t %s\t# c # d"]) % (key, q)
+                    line = rnd.choice(["%s = %s", "%s=%s", "%s  =  %s  ", "%s\t=\t%s", "%s = %s # comment", "%s =\t %s\t# c # d", "  %s = %s", "\t%s=%s"]) % (key, q)
                     (cors if tb else top).append(line)
                 if src & 4:
                     for _ in range(rnd.randint(1, 3)):
@@ -65,7 +65,9 @@ class P(Prop):
                 exp[v] = c if c is not None else f if f is not None else e if e is not None else dflt
                 multi += (bin(src).count("1") >= 2)
             rnd.shuffle(top); rnd.shuffle(cors)
-            lines = top + (["", "# c"] if rnd.random() < 0.3 else []) + (["[cors]"] + cors if cors or rnd.random() < 0.2 else [])
+            # table header spellings: indented, spaces inside, a trailing comment (the reader strips blanks before it looks for the bracket)
+            hdr = rnd.choice(["[cors]", "[cors]", "  [cors]", "\t[cors]", "[ cors ]", "[cors] # table", "  [cors]   # c"])
+            lines = top + (["", "# c"] if rnd.random() < 0.3 else []) + ([hdr] + cors if cors or rnd.random() < 0.2 else [])
             eol = rnd.choice(["\n", "\r\n"])
             fl = "-" if not (top or cors) and rnd.random() < 0.5 else "x" + hx(eol.join(lines) + (eol if rnd.random() < 0.7 else ""))
             # the command line keeps the relative order of repeats of one flag (the last one wins)
